@@ -32,8 +32,8 @@
        (vm_compute on the tiny table set of Tree/Files.v). *)
 From AV Require Import Base.Bytes Base.Outcome Hash.HashModel Tree.Heap Tree.Ops Tree.Script Tree.Serialize Tree.Inv.
 From AV Require Import Tree.Files Tree.FilesProofsProj Tree.FilesProofsFrame Tree.FilesProofsAdd Tree.FilesProofsRemove Tree.FilesProofsExact Tree.FilesProofsLast Tree.FilesProofsMove
-  Tree.FilesProofsInv Tree.FilesProofsHist Tree.FilesProofsTop Tree.FilesProofsExact2 Tree.FilesProofsOwned.
-From AV Require Tree.Index.
+  Tree.FilesProofsInv Tree.FilesProofsHist Tree.FilesProofsTop Tree.FilesProofsExact2 Tree.FilesProofsOwned Tree.FilesProofsText Tree.FilesProofsLoad.
+From AV Require Tree.Index Xml.Parser Xml.Serializer Xml.RoundTripFile.
 Open Scope list_scope.
 Open Scope N_scope.
 
@@ -232,6 +232,80 @@ Theorem C10_reachable_owned :
   steps_ok_owned T tab_el tab_en check_fn LATEST root_attrs l empty_world = true ->
   run_ops T tab_el tab_en check_fn LATEST root_attrs l empty_world = Val w' -> TreeInv w' /\ FilesInv T w' /\ FilesOwned w'.
 Proof. exact reachable_owned_all. Qed.
+
+(* ---------- remove_file and the OTHER files ----------
+   fproj w (Some g) r = the projection of file g as an element tree (names, stored types, attributes, character data,
+   comments, order).  For every other file g the projection tree is UNCHANGED ... *)
+Theorem C10_remove_file_other_tree :
+  forall (T : tables) (m f : N) (w : world) (r : out unit) (w' : world) (x : model),
+  TreeInv w -> FilesInv T w ->
+  Known_root_last w (OpRemoveFile m f) = false -> Unowned w (OpRemoveFile m f) = false -> last_file w (OpRemoveFile m f) = false ->
+  (forall i n, Reach w (m_root x) i -> w_nodes w i = Some n -> n_name n = SHORT T -> n_files n = []) ->
+  m_remove_file T m f w = Val (r, w') -> model_b w m = Some x -> In f (m_files x) ->
+  forall g, g <> f -> Attributed w (m_root x) g ->
+  forall fuel t, fproj fuel w (Some g) (m_root x) = Some t -> fproj fuel w' (Some g) (m_root x) = Some t.
+Proof. exact remove_file_other_tree. Qed.
+
+(* ... and the TEXT of g is unchanged provided every written element of g that has content keeps some of it (a
+   character data item or a sub-element attributed to a file other than f): the writer chooses <X/> or <X>..</X> on
+   the unfiltered content list, so an element of g whose whole content was attributed to f alone turns from
+   <X>..</X> (nothing inside) into <X/> — witness below.  CharsLeaf: elements with character content have no
+   sub-elements (C07). *)
+Theorem C10_remove_file_other_text :
+  forall (T : tables) (m f : N) (w : world) (r : out unit) (w' : world) (x : model),
+  TreeInv w -> FilesInv T w ->
+  Known_root_last w (OpRemoveFile m f) = false -> Unowned w (OpRemoveFile m f) = false -> last_file w (OpRemoveFile m f) = false ->
+  (forall i n, Reach w (m_root x) i -> w_nodes w i = Some n -> n_name n = SHORT T -> n_files n = []) ->
+  m_remove_file T m f w = Val (r, w') -> model_b w m = Some x -> In f (m_files x) ->
+  forall g, g <> f ->
+  forall (tab_el tab_at tab_en : nametab) (float_fmt : N -> list N),
+  Attributed w (m_root x) g -> CharsLeaf T w -> KeepsSome T w f g (m_root x) ->
+  forall fuel indent inline,
+    ser_heap T tab_el tab_at tab_en float_fmt fuel w' (Some g) (m_root x) indent inline =
+    ser_heap T tab_el tab_at tab_en float_fmt fuel w (Some g) (m_root x) indent inline.
+Proof. exact remove_file_other_text. Qed.
+
+(* [F] witness on the tiny table set: remove_file 0 changes the text of file 1 (ELEMENTS, whose only sub-element was
+   in file 0 alone) while the projection tree of file 1 stays the same *)
+Theorem C10_other_text_witness :
+  TinyF.with_script TinyF.split (fun w => TinyF.text w 1) Fuel <> TinyF.with_script TinyF.split_rm (fun w => TinyF.text w 1) Fuel /\
+  TinyF.with_script TinyF.split (fun w => fproj (fuel_of w) w (Some 1) 0) None =
+  TinyF.with_script TinyF.split_rm (fun w => fproj (fuel_of w) w (Some 1) 0) None.
+Proof. exact (conj TinyF.hollow_differs (proj1 TinyF.hollow_same_tree)). Qed.
+
+(* ---------- the text of a file denotes its projection, and loads on its own ---------- *)
+(* on elements that are not hollow, ser_heap writes what Xml/Serializer.ser_elem writes for the projection tree *)
+Theorem C10_text_is_projection :
+  forall (T : tables) (tab_el tab_at tab_en : nametab) (float_fmt : N -> list N) (w : world) (ff : option N) (r : id),
+  NoHollow T w ff r ->
+  forall fuel i t indent inline, Proj T w ff r i -> fproj fuel w ff i = Some t ->
+    ser_heap T tab_el tab_at tab_en float_fmt fuel w ff i indent inline =
+    Serializer.ser_elem T tab_el tab_at tab_en float_fmt t indent inline.
+Proof. exact ser_heap_fproj. Qed.
+
+(* the projection tree lists exactly the elements ser_heap visits (C10_ser_visits: = Proj), in that order *)
+Theorem C10_projection_preorder :
+  forall (T : tables) (w : world) (ff : option N), CharsLeaf T w ->
+  forall fuel i l t, ser_ids T fuel w ff i = Val l -> fproj fuel w ff i = Some t -> epre t = map (label_at w) l.
+Proof. exact fproj_preorder. Qed.
+
+(* ArxmlFile::serialize, then load the text ALONE (C01's file round trip): the result is exactly the projection tree
+   of the file, silently, with the file's version and standalone flag.  Side conditions: the projection exists for
+   the writer's fuel, no written element is hollow, the projection is a canonical root for `ver` in the sense of C01
+   (decidable: C01_rootcanonb_sound). *)
+Theorem C10_file_self_contained :
+  forall (strict : bool) (T : tables) (tab_el tab_at tab_en : nametab) (check_fn : N -> list N -> res bool)
+         (float_fmt : N -> list N) (float_parse : list N -> option N) (attr_schema_location : N)
+         (ver f : N) (w : world) (text : list N) (w' : world),
+  f_serialize T tab_el tab_at tab_en check_fn float_fmt attr_schema_location f w = Val (OK text, w') ->
+  exists fl x, nth_opt (w_files w) (N.to_nat f) = Some fl /\ nth_opt (w_models w) (N.to_nat (f_model fl)) = Some x /\
+    Attributed w (m_root x) f /\
+    forall t, fproj (fuel_of w') w' (Some f) (m_root x) = Some t ->
+      NoHollow T w' (Some f) (m_root x) ->
+      RoundTripFile.RootCanon strict T tab_el tab_at tab_en check_fn float_fmt float_parse ver t ->
+      exists st, Parser.load strict T tab_el tab_at tab_en check_fn float_parse text = Val (Parser.Ret t st) /\
+                 Parser.p_warnings st = [] /\ Parser.p_version st = ver /\ Parser.p_standalone st = f_standalone fl.
+Proof. exact file_self_contained. Qed.
 
 Theorem C10_self_contained :
   forall (T : tables) (Loads : world -> option N -> id -> Prop),
